@@ -7,7 +7,6 @@ package main
 import (
 	"bytes"
 	"encoding/binary"
-	"encoding/hex"
 	"fmt"
 	"math"
 	"strings"
@@ -18,21 +17,6 @@ import (
 )
 
 func init() { streams["c07"] = runC07 }
-
-func hx(b []byte) string {
-	if len(b) == 0 {
-		return "-"
-	}
-	return hex.EncodeToString(b)
-}
-
-// canonical NaN for float64 values that pass through arithmetic / widening
-func cF(f float64) string {
-	if f != f {
-		return "7ff8000000000000"
-	}
-	return F(f)
-}
 
 func c07V3s(vs []vector3.Float64) string {
 	var sb strings.Builder
